@@ -206,7 +206,7 @@ func gateApplies(point, role string) bool {
 	case point == "serve.call" || (len(point) > 3 && point[:3] == "sv."):
 		return role == "serve"
 	case point == "sd.call" || (len(point) > 3 && (point[:3] == "sd." || point[:3] == "cl.")):
-		return role == "sd"
+		return role == "sd" || role == "sdc"
 	case point == "wk.start" || point == "cb.body":
 		return role == "worker"
 	case len(point) > 3 && point[:3] == "ql.":
